@@ -192,3 +192,42 @@ package analysis
 //@   ensures forall v ast.Variable :: old(vardefs[v]) ==> vardefs[v]
 //@   loop 1 invariant forall v ast.Variable :: old(vardefs[v]) ==> vardefs[v]
 //@   loop 2 invariant forall v ast.Variable :: old(vardefs[v]) ==> vardefs[v]
+
+// ---- C04: premise reordering keeps every literal ---------------------------------------------------------------
+// Decided here: no literal is lost or gained in number (premises placed + negated atoms still delayed == premises
+// processed; nothing stays delayed at the end), and every index into the two delay lists is in range. That the
+// literals are the SAME ones (multiset, order of the undelayed ones) is checked by the bounded stand-in only.
+//@ func (vl VarList) Find(v)
+//@   pure
+//@   trusted
+//@   modifies nothing
+//@ func (vl VarList) Extend(vars)
+//@   trusted
+//@   modifies nothing
+//@ func (vl VarList) AsMap()
+//@   trusted
+//@   opt freshresult
+//@   modifies nothing
+//@   ensures result != nil
+//@ func NewVarList(m)
+//@   trusted
+//@   modifies nothing
+//@ func scrutineeIsInputArg(d)
+//@   trusted
+//@   modifies nothing
+
+// toRemove lists, in strictly descending order, the positions of the delayed atoms that were just placed; removing
+// them one by one from the back keeps the remaining positions valid.
+//@ func RewriteClause(decls, clause)
+//@   requires forall q ast.PredicateSym :: q in decls ==> decls[q] != nil
+//@   modifies nothing
+//@   ensures len(result.Premises) == len(clause.Premises)
+//@   ensures result.Head == clause.Head && result.HeadTime == clause.HeadTime && result.Transform == clause.Transform
+//@   loop 1 invariant len(delayVars) == len(delayNegAtom) && len(premises) + len(delayNegAtom) == rangeindex + 1
+//@   loop 4 invariant len(delayVars) == len(delayNegAtom) && len(premises) + len(delayNegAtom) == rangeindex + 1 + len(toRemove)
+//@   loop 4 invariant forall u int :: 0 <= u && u < len(toRemove) ==> 0 <= toRemove[u] && toRemove[u] <= rangeindex#2
+//@   loop 4 invariant forall u int, w int :: 0 <= u && u < w && w < len(toRemove) ==> toRemove[u] > toRemove[w]
+//@   loop 5 invariant len(delayVars) == len(delayNegAtom) && len(premises) + len(delayNegAtom) == rangeindex + 1 + len(toRemove)
+//@   loop 6 invariant len(delayVars) == len(delayNegAtom) && len(premises) + len(delayNegAtom) == rangeindex + 1 + len(toRemove) - (rangeindex#3 + 1)
+//@   loop 6 invariant forall u int :: rangeindex#3 < u && u < len(toRemove) ==> 0 <= toRemove[u] && toRemove[u] < len(delayNegAtom)
+//@   loop 6 invariant forall u int, w int :: 0 <= u && u < w && w < len(toRemove) ==> toRemove[u] > toRemove[w]
